@@ -34,14 +34,28 @@ Proof.
   destruct kc as [| | | | | | | |[|]| | | | | |]; cbn [c_kind] in Hw; try discriminate Hw;
     try (pose proof (existsb_false_in _ _ _ Hw Hin) as Hp; cbv beta in Hp; cbn [c_kind] in Hp);
     try (pose proof (existsb_false_in _ _ _ Ha Hin) as Hq; cbv beta in Hq; cbn [c_kind] in Hq).
+  all: try match type of Hw with
+           | (_ || existsb _ _)%bool = false =>
+               apply orb_false_elim in Hw; destruct Hw as [Hd Hs]; subst deleted;
+               pose proof (existsb_false_in _ _ _ Hs Hin) as Hp; cbv beta in Hp; cbn [c_kind] in Hp
+           end.
   all: destruct kr as [| | | | | | | |[|]| | | | | |]; try discriminate Hr.
-  all: try (subst deleted).
   all: try (cbn [c_kind c_set] in Hp); try discriminate Hp.
-  all: unfold fp, fp_clash; cbn [c_kind c_set f_wlist f_rlist f_wflags f_rflags andb orb ext_meet].
+  all: unfold fp, fp_clash, fp_all; cbn [c_kind c_set f_wlist f_rlist f_wflags f_rflags f_wdel f_rdel andb orb ext_meet].
   all: try reflexivity.
   all: try (unfold intersect in Hp; cbn [c_set] in Hp; rewrite ?Hp; reflexivity).
   all: try (unfold intersect in Hq; cbn [c_set] in Hq; rewrite ?Hq; reflexivity).
 Qed.
+
+(* EXPUNGE with nothing marked \Deleted yet is not let in next to a running STORE (it was, in the pinned code:
+   the STORE then marked a message, the EXPUNGE removed it, and the STORE's FETCH notification for a message
+   that no longer existed followed the EXPUNGE); next to commands that cannot mark anything it still is. *)
+Example expunge_waits_for_store :
+  let store := {| c_kind := KStore; c_set := [2] |} in
+  let fetch := {| c_kind := KFetch true; c_set := [2] |} in
+  let exp := {| c_kind := KExpunge; c_set := [] |} in
+  fp_clash (fp false exp) (fp false store) = true /\ would_conflict [store] false exp = true /\ would_conflict [fetch] false exp = false.
+Proof. repeat split. Qed.
 
 Example conflict_asymmetry :
   let nonpeek := {| c_kind := KFetch false; c_set := [1] |} in
